@@ -100,6 +100,15 @@ func Reevaluate(doc *CReplay) (class, detail string) {
 		}
 		return "acceptance-gate " + stage + ": " + m[4], firstLines(out, 10)
 	}
+	if doc.Kind == "dead" && doc.Spec != nil {
+		res := b.Run(*doc.Spec)
+		for _, m := range res.Mismatches {
+			if m.Sc == nil {
+				return m.Class, strings.Join(m.Observed, "\n  ")
+			}
+		}
+		return "", ""
+	}
 	if doc.Kind == "gate" || doc.Scenario == nil {
 		return "", ""
 	}
